@@ -26,7 +26,95 @@ def plain_op(op):
         return " ".join(t[:-1])
     return op
 
+import os, subprocess, time
+
+def special_c15(pid, tier, seed, st, res, chk):
+    """histories: the whole mixed sequence in ONE process vs. every call alone in a FRESH process"""
+    harness = os.path.join(chk.BIN, "harness")
+    g = chk.run([harness, "gen", pid, tier, str(seed)])
+    seq = [l for l in g.stdout.split("\n") if l]
+    if tier == "quick":
+        seq = seq[:400]
+    t0 = time.time()
+    hist = chk.pipe_lines([harness, "run"], seq, timeout=1200)          # one process, one history
+    distinct = sorted(set(seq))
+    from concurrent.futures import ThreadPoolExecutor
+    def fresh(op):
+        try:
+            return chk.pipe_lines([harness, "run"], [op], timeout=300)[0]
+        except subprocess.TimeoutExpired:
+            return "timeout"
+    with ThreadPoolExecutor(max_workers=chk.NPROC) as ex:
+        fr = dict(zip(distinct, ex.map(fresh, distinct)))
+    bad = 0
+    for i, (op, r) in enumerate(zip(seq, hist)):
+        if r != fr[op]:
+            bad += 1
+            if bad <= 3:
+                res["oracle_fail"].append({"op": op, "impl": chk.short(r), "tag": "purity-history",
+                    "reason": "result after %d earlier calls differs from the fresh-process result %s; history: %s" % (i, chk.short(fr[op], 120), " || ".join(x[:80] for x in seq[max(0, i - 5):i]))})
+    res.setdefault("extra", {})["history"] = {"calls_in_one_process": len(seq), "fresh_process_calls": len(distinct),
+                                               "differences": bad, "t_s": round(time.time() - t0, 1)}
+
+def special_c16(pid, tier, seed, st, res, chk):
+    """schedules: n goroutines start all ops at once as the first calls of a fresh process; results must equal the
+    sequential ones, no goroutine may stay alive, the race detector must stay silent"""
+    harness = os.path.join(chk.BIN, "harness")
+    race = os.path.join(chk.BIN, "harness-race")
+    r = chk.run(["go", "build", "-race", "-tags", "verif", "-o", race, "./cmd/harness"], cwd=os.path.join(chk.VERIF, "go"), env=chk.GOENV)
+    have_race = r.returncode == 0
+    ops, impl = res.get("_ops", []), res.get("_impl", [])
+    expect = dict(zip(ops, impl))
+    if tier == "quick":
+        configs = [(2, 1, False), (8, 4, False), (64, 16, False), (16, 2, False), (8, 8, True), (32, 16, True)]
+        sub = ops[:220]
+    else:
+        configs = [(n, p, rc) for n in (2, 3, 8, 16, 64) for p in (1, 2, 4, 16) for rc in (False, True)]
+        sub = ops
+    runs = []
+    t0 = time.time()
+    for (n, procs, use_race) in configs:
+        if use_race and not have_race:
+            continue
+        binp = race if use_race else harness
+        env = dict(os.environ, GOMAXPROCS=str(procs), GORACE="halt_on_error=1 exitcode=66")
+        part = sub if not use_race else sub[: max(60, len(sub) // 3)]
+        try:
+            p = subprocess.run([binp, "conc", str(n)], input="\n".join(part) + "\n", stdout=subprocess.PIPE,
+                               stderr=subprocess.PIPE, text=True, env=env, timeout=900)
+            out = p.stdout.split("\n")
+            status = ""
+            if p.returncode == 66 or "DATA RACE" in p.stderr:
+                status = "race"
+                res["oracle_fail"].append({"op": "conc %d GOMAXPROCS=%d race-detector" % (n, procs), "impl": chk.short(p.stderr, 1500), "tag": "conc-race", "reason": "data race reported"})
+            elif p.returncode != 0:
+                status = "crash"
+                res["oracle_fail"].append({"op": "conc %d GOMAXPROCS=%d" % (n, procs), "impl": chk.short(p.stderr, 1500), "tag": "conc-crash", "reason": "process exited with %d" % p.returncode})
+            else:
+                tail = [l for l in out if l.startswith("#conc")]
+                lines = [l for l in out if l and not l.startswith("#conc")]
+                if not tail or "deadlock" in tail[0]:
+                    status = "deadlock"
+                    res["oracle_fail"].append({"op": "conc %d GOMAXPROCS=%d" % (n, procs), "impl": "", "tag": "conc-deadlock", "reason": "calls did not return"})
+                else:
+                    leaked = int(tail[0].split("leaked=")[1].split(" ")[0])
+                    diff = [(o, a) for o, a in zip(part, lines) if a != expect.get(o)]
+                    status = "leaked=%d diff=%d" % (leaked, len(diff))
+                    if leaked > 0:
+                        res["oracle_fail"].append({"op": "conc %d GOMAXPROCS=%d" % (n, procs), "impl": tail[0], "tag": "conc-leak", "reason": "%d goroutines still alive after all calls returned" % leaked})
+                    for o, a in diff[:2]:
+                        res["oracle_fail"].append({"op": o, "impl": chk.short(a), "tag": "conc-result", "reason": "result under %d goroutines / GOMAXPROCS=%d differs from the sequential result" % (n, procs)})
+        except subprocess.TimeoutExpired:
+            status = "timeout"
+            res["oracle_fail"].append({"op": "conc %d GOMAXPROCS=%d" % (n, procs), "impl": "", "tag": "conc-deadlock", "reason": "timeout"})
+        runs.append({"goroutines": n, "GOMAXPROCS": procs, "race_detector": use_race, "ops": len(part), "status": status})
+    res.setdefault("extra", {})["schedules"] = {"runs": runs, "race_binary": have_race, "t_s": round(time.time() - t0, 1)}
+
 PROPS = {
+    "C15": {"claim": "Purity: every encoder is modelled as a pure function; that this is faithful is carried by generated syntactic facts (no package-level variable written after init, no struct field aliasing a slice parameter, the RS cache only touched inside the locked getPolynomial) plus the theorem that Encode is independent of the cache history and that the map-order dependent searches have unique answers; the Go side is exercised with long mixed histories in one process against fresh-process runs and with post-hoc mutation of []byte arguments.",
+            "obs": None, "special": special_c15, "note": "Partial by nature: a pure model cannot exhibit hidden state; the history / fresh-process comparison and the mutation check are testing of the Go functions."},
+    "C16": {"claim": "Concurrency: the logic that makes concurrent use safe is modelled and proved (mutex-guarded cache whose result is history-free => serialisable; producer/consumer protocols of the channel pipelines always drain), with generated facts as preconditions; schedules, the race detector and goroutine leaks are exercised by running mixed workloads from 2-64 goroutines with GOMAXPROCS 1-16 as the first calls of fresh processes.",
+            "obs": None, "special": special_c16, "note": "Partial by nature: the Go scheduler and memory model are not modelled; races and leaks are searched by execution (-race), not proved absent."},
     "C09": {"claim": "Model of scaledbarcode.go (Scale, ScaleWithFill, both scalers, the wrapper's accessors) with the theorem that the result is the integer, centred enlargement or an error; tied by correspondence on exhaustive (width, height) windows of small sources of every family, chains, fills; judged pixel by pixel by the property's own formula.",
             "obs": None, "aux": scale_inner, "exhaustive_note": "every (w, h) in [1, 3*size+3]^2 for the small 1-D sources and small matrix symbols whose window fits the budget"},
     "C10": {"claim": "Acceptance stated per entry point as `accepted iff representable` (alphabet, length, parity, check digit, capacity from the ISO tables); models tied by correspondence on every single byte / boundary rune / boundary length / parameter sweep; no call may panic, hang or return an inconsistent pair. For Aztec and PDF417 capacity the oracle decides only one direction (content that certainly fits must be accepted).",
